@@ -545,8 +545,24 @@ def cases(rng, tier, shard, nshards):
 
 
 def _defaults_digest(mods):
-    f = getattr(mods['rdp'].min_point_rdp, '_original', mods['rdp'].min_point_rdp)
-    return argdigest(list(f.__defaults__ or ()))
+    """Digest of every mutable default argument (list / dict / set / ndarray) of every function of the package: a default
+    that a call writes into is state shared by all later calls that rely on it."""
+    fns = STATE.get('mutable_defaults')
+    if fns is None:
+        fns = []
+        for short, qual, f in link.package_functions(mods):
+            vals = list(getattr(f, '__defaults__', None) or ()) + list((getattr(f, '__kwdefaults__', None) or {}).values())
+            if any(isinstance(v, (list, dict, set, np.ndarray)) for v in vals):
+                fns.append(f)
+        STATE['mutable_defaults'] = fns
+    out = []
+    for f in fns:
+        for v in list(f.__defaults__ or ()) + list((f.__kwdefaults__ or {}).values()):
+            if isinstance(v, dict):
+                out.append(sorted((repr(k), repr(x)[:200]) for k, x in v.items()))
+            elif isinstance(v, (list, set, np.ndarray)):
+                out.append(v if not isinstance(v, set) else sorted(map(repr, v)))
+    return argdigest(out)
 
 
 def call(ctx, name, fn, view, quiet_hist=False):
